@@ -13,7 +13,7 @@ use uom::si::length::meter;
 pub fn def() -> PropDef {
     PropDef {
         id: "C15",
-        rule: "inputs: the point multisets of C14 (clouds, several tracks, degenerate families, exact duplicates, 0..2000 points; sparse staircases on one circle through the origin with arc step 10-36 mm and z step 0-36 mm, i.e. neighbour distances on both sides of the 3 cm linkage, alone, in pairs and inside clouds) and track lists of 0..8 hook-built tracks with ties, plus tracks fitted from generated clusters; oracle: (1) multiset(points of all clusters) + multiset(remainder) == multiset(input) comparing r, phi, z by bits; (2) every cluster has >= 13 points; (3) every cluster is connected under single linkage at 3 cm (union-find with SpacePoint::distance, threshold 3 cm x (1 + 1e-9)); (4) multiset(primary tracks) + multiset(secondaries' tracks) + multiset(remainder) == input tracks (helix parameters and end parameters by bits), primary has >= 2 tracks; non-trivial = >= 1 cluster together with a non-empty remainder, duplicates in the input, or a primary vertex with a non-empty remainder; distinct by case hash",
+        rule: "inputs: the point multisets of C14 (clouds, several tracks, degenerate families, exact duplicates, 0..2000 points; one case in five with the azimuths written in mixed turns - phi, phi - 2 pi, phi + 2 pi for the same place; sparse staircases on one circle through the origin with arc step 10-36 mm and z step 0-36 mm, i.e. neighbour distances on both sides of the 3 cm linkage, alone, in pairs and inside clouds) and track lists of 0..8 hook-built tracks with ties, plus tracks fitted from generated clusters; oracle: (1) multiset(points of all clusters) + multiset(remainder) == multiset(input) comparing r, phi, z by bits; (2) every cluster has >= 13 points; (3) every cluster is connected under single linkage at 3 cm (union-find with SpacePoint::distance, threshold 3 cm x (1 + 1e-9)); (4) multiset(primary tracks) + multiset(secondaries' tracks) + multiset(remainder) == input tracks (helix parameters and end parameters by bits), primary has >= 2 tracks; non-trivial = >= 1 cluster together with a non-empty remainder, duplicates in the input, or a primary vertex with a non-empty remainder; distinct by case hash",
         assumptions: &["track identity is read through reconstruction::verif_hooks::helix_params"],
         run,
         replay,
@@ -86,6 +86,9 @@ fn clustering(c: &PointsCase, ev: &mut Ev) -> Outcome {
     if (!res.clusters.is_empty() && !res.remainder.is_empty()) || has_dups {
         ev.nontrivial(fingerprint(&format!("{c:?}")));
     }
+    if c.turns != 0 {
+        ev.label("azimuths written in mixed turns");
+    }
     if has_dups {
         ev.label(if res.clusters.is_empty() { "duplicates:unclustered" } else { "duplicates:with-clusters" });
     }
@@ -153,7 +156,7 @@ fn sparse_case() -> impl proptest::strategy::Strategy<Value = PointsCase> {
         if let Some((n, seed)) = cloud {
             groups.push(Group { family: Family::Cloud, n, seed, flat: 0 });
         }
-        PointsCase { groups, duplicates }
+        PointsCase { groups, duplicates, turns: 0 }
     })
 }
 
@@ -170,7 +173,7 @@ fn sparse(c: &PointsCase, ev: &mut Ev) -> Outcome {
 fn run(r: &Run) {
     let t = r.tier;
     r.prop("clustering_sparse_staircases", t.pick(6_000, 300_000), sparse_case, sparse);
-    r.prop("clustering_partition", t.pick(10_000, 400_000), || points_case(300), clustering);
+    r.prop("clustering_partition", t.pick(10_000, 400_000), || points_case_turns(300), clustering);
     r.prop("clustering_partition_large", t.pick(32, 2_000), || points_case(2000), clustering);
     r.prop("vertexing_partition", t.pick(12_000, 600_000), track_set, vertexing);
     r.prop("vertexing_fitted_tracks", t.pick(300, 20_000), || points_case(200), fitted_vertexing);
